@@ -1,5 +1,8 @@
 From Coq Require Import List NArith Bool Arith.
-From AMV Require Import Base.ListSet Model.Schema Model.Machine Run.EvalHist Spec.C14.
+From AMV Require Import Base.ListSet Model.Schema Model.Machine Run.EvalHist Spec.C14 Spec.C14f.
 Import ListNotations.
-Definition violations (k : hcase) : list N := nodup N.eq_dec (c14_codes (h_obs k) (h_extra k)).
+(* judged with the fault-aware predicate (Spec/C14f.v): identical to
+   c14_codes on fault-free scripts (theorem c14f_conservative) *)
+Definition violations (k : hcase) : list N :=
+  nodup N.eq_dec (c14f_codes (h_actions k) (h_obs k) (h_extra k)).
 Definition check_all := check_hist violations.
